@@ -368,7 +368,7 @@ Proof.
 Qed.
 
 (* ------------------------------------------------------------------ (3) a pathway exists *)
-Lemma walk_cons : forall n f v w, v < n -> is_walk n f w -> (0 < f v (hd 0 w))%Q -> is_walk n f (v :: w).
+Lemma walk_cons : forall n f v w, v < n -> is_walk n f w -> (0 < f v (hd 0%nat w))%Q -> is_walk n f (v :: w).
 Proof.
   intros n f v w Hv [H1 [H2 H3]] Hpos. destruct w as [|y t]; [congruence|].
   repeat split.
@@ -461,7 +461,7 @@ Lemma top_path_not_PInf : forall n f srcs sinks p,
 Proof.
   intros n f srcs sinks p Hdis H.
   destruct (top_path_sound _ _ _ _ _ _ H) as [H1 _].
-  destruct H1 as [[[Hne _] [_ [Hs Hk]]] [_ Hb]]; [discriminate|].
+  destruct H1 as [[[Hne _] [_ [Hs Hk]]] [Hb _]]; [discriminate|].
   apply PInf_ele_inv in Hb.
   destruct (edges p) as [|e es] eqn:Ee.
   - destruct (edges_nil p Ee) as [C|[a C]]; [congruence|]. subst p. simpl in Hs, Hk.
@@ -502,7 +502,7 @@ Proof.
   destruct (top_path n f srcs sinks) as [[p fl]| | |] eqn:Et; try discriminate.
   destruct fl as [|q|].
   - (* -inf: the outflow is exhausted *)
-    inversion H; subst ps qs. right. rewrite qsum_rev.
+    assert (Eqs : qs = rev accf) by congruence. subst qs. right. rewrite qsum_rev.
     destruct (Qlt_le_dec 0 (total_flux n f srcs)) as [Hpos|Hle].
     + exfalso. destruct (conserved_top_path_finite _ _ _ _ _ _ Hnn Hc Ha Hdis Hpos Et) as [q [C _]].
       discriminate.
@@ -515,7 +515,7 @@ Proof.
     { rewrite Qred_correct. rewrite (Hexpl Htp). simpl. field. lra. }
     cbn [reached_count orb] in H.
     destruct (Qle_bool cutoff (Qred (expl + q / total))) eqn:Ecut.
-    + inversion H; subst ps qs. left. rewrite qsum_rev.
+    + assert (Eqs : qs = rev (q :: accf)) by congruence. subst qs. left. rewrite qsum_rev.
       apply Qle_bool_iff in Ecut. rewrite Hexpl' in Ecut.
       apply (Qmult_le_compat_r _ _ total) in Ecut; [|lra].
       assert (E : (qsum (q :: accf) / total * total == qsum (q :: accf))%Q) by (field; lra).
@@ -599,3 +599,8 @@ Proof.
   split; [apply nodupb_NoDup; reflexivity|].
   intros x [Hx|[]] [Hy|[]]. subst. discriminate.
 Qed.
+
+Lemma conserved_tests_sound : forall n f srcs sinks ord,
+  (conservedb n f srcs sinks = true -> conserved n f srcs sinks) /\
+  (forwardb n f ord = true -> acyclic n f).
+Proof. intros. split; [apply conservedb_conserved|apply forwardb_acyclic]. Qed.
